@@ -60,3 +60,21 @@ Example pcap1 : pipeline_cap [false; true] [false; false] = true. Proof. reflexi
 Example pcap2 : pipeline_cap [false] [true; true] = true. Proof. reflexivity. Qed.
 Example pcap3 : pipeline_cap [false] [true; false] = false. Proof. reflexivity. Qed.
 Example pcap4 : pipeline_cap [] [] = false. Proof. reflexivity. Qed.
+
+(* graph level: a receiver feeding [mutating-processor pipeline; two plain pipelines]: the first gets its
+   own mutable copy, the other two share the caller's payload, marked read-only *)
+Definition w_roots := [Pipe [false; true] [NExp false]; Pipe [] [NExp false; NExp false]; Pipe [false] [NExp true; NExp false]].
+Example roots_caps : map pipe_cap_t w_roots = [true; false; false].
+Proof. reflexivity. Qed.
+Definition w_graph := run (new_fan (map pipe_cap_t w_roots)) false [1]%Z (calls 3).
+Example graph_handles : holds w_graph 0 1 /\ holds w_graph 1 0 /\ holds w_graph 2 0 /\
+  cro (get (st w_graph) 1) = false /\ cro (get (st w_graph) 0) = true.
+Proof. slv. Qed.
+(* a connector: advertises mutation when a pipeline it feeds does *)
+Example conn_cap : node_cap (NConn false [Pipe [] [NExp false]; Pipe [true] [NExp false]]) = true /\
+                   node_cap (NConn false [Pipe [] [NExp false]]) = false.
+Proof. split; reflexivity. Qed.
+(* hypothesis of fan_cap_original_reaches_mutator *)
+Example reach_hyp : fan_cap (new_fan [true; true; true]) = true /\ length [true; true; true] <= ncalls (calls 3) /\
+  holds (run (new_fan [true; true; true]) false [1]%Z (calls 3)) 2 0.
+Proof. slv. Qed.
